@@ -659,7 +659,7 @@ def _emit_item(unit, g, src, it, iid, label, a, fnq, emit, canary, spec):
     em = Emitter(src, it.start, it.end)
     _drop_attrs(src, it, em, spec['keep_attrs'], g)
     # nested attribute dropping (enum variants / struct fields carry serde attrs): drop every #[serde..]/#[derive..] inside
-    if it.kind in ('enum', 'struct'):
+    if it.kind in ('enum', 'struct') and it.body_open is not None:
         _drop_inner_attrs(src, it, em, g)
     rw_applied = []
     apply_rewrites_tokens(src, _vis_start(src.toks, it), it.end, list(a.rewrites) + list(unit.global_rewrites), em, rw_applied, label)
